@@ -168,12 +168,28 @@ CLAIMS['C17'] = dict(
     technique='static analysis: per-path linear-form accounting of the planners\' accumulators on MIR (offset/budget move by the length of the range written; read-before-update ordering), must-pass-through (dominance) for flush, guards and the length check, def-use provenance of written slices, offsets and cache keys, closure-predicate edge analysis',
     text=('Decides structural necessary conditions of reconstruction, for both writers and both fetch paths: (R17a) in the parallel planner the output-offset accumulator advances and the '
           'byte budget shrinks by exactly end - start of the range handed to write_term, the file offset handed on is the accumulator before that advance, end <= start + budget, and a '
-          'non-zero start is used only behind `index == 0`; offsets are fixed before any task is spawned, so task completion order cannot influence them; (R17b) write_term opens its writer at '
+          'non-zero start is used only behind `index == 0` where the index numbers the terms of the whole plan; offsets are fixed before any task is spawned, so task completion order cannot influence them; (R17b) write_term opens its writer at '
           'the file_offset parameter, writes term_data[term_range], reports end - start, flushes before success, indexes only behind end <= len, and propagates every error; (R17c) the sequential '
           'writer obeys the same accounting with one writer opened at 0, writes this iteration\'s item only behind its `?`, and reports the total its budget started from; (R17d) get_one_term selects '
-          'a fetch range only if it contains the term\'s chunk range, reads the offset table at (term.range.x - fetch.range.start), cuts the end before the start, fills the cache before trimming under '
+          'a fetch range only if it contains the term\'s chunk range, reads the offset table at (term.range.x - fetch.range.start), cuts the end before the start, merges concurrent downloads only under a key derived from the fetch range, fills the cache before trimming under '
           '(term.hash, fetched range), returns cold data only behind len == term.unpacked_length, and asks the cache for exactly (term.hash, term.range); (R17e) both planners derive the requested '
           'total identically. These are all-paths facts on the MIR. Not decided: numeric equality of output and plan, value-level agreement of the two planners, correctness of cached data (C12), '
           'the HTTP layer.'),
     note='Partial claim: each rule is a necessary condition (breaking it misplaces, truncates or shifts output for some plan within the quantifier); together they do not imply the byte-for-byte statement.')
 
+
+# round 6
+_ROUND6 = {
+    'C05': 'Also (R05f): the deduper\'s self-reference map is emptied wherever the pending chunk list is emptied, and a hash is entered with the position its chunk is then pushed at, so the local matcher never answers with positions of a previous xorb.',
+    'C12': 'R12d: the cache file header reader loops over exactly the count it read (the loop bound is the length token itself, not a value derived from it), matching the writer\'s (len, len x u32).',
+    'C19': 'Also (R19g): a temporary file left by an interrupted process is never continued — every temporary name of SafeFileCreator carries a random component, or the open truncates.',
+}
+for _k, _v in _ROUND6.items():
+    CLAIMS[_k]['text'] += ' ' + _v
+_TECH6 = {
+    'C05': '; paired-reset rule (must-pass-through) and insert/push ordering for the self-reference map',
+    'C19': '; def-use provenance of temporary names (random source) / open-flag census',
+}
+for _k, _v in _TECH6.items():
+    if _v not in CLAIMS[_k]['technique']:
+        CLAIMS[_k]['technique'] += _v
